@@ -328,7 +328,48 @@ fn push_case(ctx: &Ctx, sink: &mut Sink, cwd: &Path, baseline: &str, args: &[Str
     sink.push(Case { req: format!("cmdline {ext} {}", crate::wire::list(&words)), imp, tags });
 }
 
+/// "every file tree": entries whose time stamps lie outside what calendar libraries represent (a
+/// file system with 64-bit time stamps is needed: a tmpfs is mounted for these cases; where that is
+/// not permitted they are left out)
+fn extreme_times(ctx: &Ctx, sink: &mut Sink) {
+    let cwd = ctx.scratch("c11x").join("pad").join("w");
+    std::fs::create_dir_all(cwd.join("t")).unwrap();
+    std::fs::create_dir_all(cwd.join("out")).unwrap();
+    std::fs::write(cwd.join("ref"), b"r").unwrap();
+    let Some(mount) = super::c02::Mount::new(&cwd.join("t")) else { sink.bump("mount_unavailable", 1); return };
+    let mut ok = true;
+    for (name, secs) in [("far-future", 99_999_999_999_999i64), ("end-of-time", i64::MAX), ("far-past", -99_999_999_999_999i64), ("now-ish", 1_700_000_000)] {
+        let p = cwd.join("t").join(name);
+        std::fs::write(&p, b"x").unwrap();
+        let c = std::ffi::CString::new(p.as_os_str().as_bytes()).unwrap();
+        let ts = [libc::timespec { tv_sec: secs, tv_nsec: 0 }, libc::timespec { tv_sec: secs, tv_nsec: 0 }];
+        if unsafe { libc::utimensat(libc::AT_FDCWD, c.as_ptr(), ts.as_ptr(), 0) } != 0 { ok = false; }
+        use std::os::unix::fs::MetadataExt;
+        if std::fs::metadata(&p).map(|m| m.mtime()).unwrap_or(0) != secs { ok = false; }
+    }
+    if ok {
+        let shapes: Vec<Vec<&str>> = vec![
+            vec!["t", "-ls"], vec!["t", "-printf", "%t\\n"], vec!["t", "-printf", "%TY %AH %CS\\n"], vec!["t", "-printf", "%T@ %A+\\n"],
+            vec!["t", "-newermt", "jan 01, 2020"], vec!["t", "-mtime", "+1"], vec!["t", "-daystart", "-mtime", "0"], vec!["t", "-mmin", "-5"],
+            vec!["t", "-newer", "ref"], vec!["t", "-neweram", "t/far-future"], vec!["t", "-fls", "out/o1"], vec!["t", "-printf", "%Tc|%Tx|%TD\\n"],
+        ];
+        for s in &shapes {
+            let args: Vec<String> = s.iter().map(|x| x.to_string()).collect();
+            let ext = ext_of(&cwd, &args);
+            let words: Vec<String> = args.iter().map(|w| hex(w.as_bytes())).collect();
+            let _ = std::fs::write(ctx.outdir.join("current_case.txt"), format!("cmdline {ext} {}", crate::wire::list(&words)));
+            let imp = observe(ctx, &cwd, &args);
+            sink.push(Case { req: format!("cmdline {ext} {}", crate::wire::list(&words)), imp, tags: vec!["extreme-timestamps", "nt", "accepted"] });
+        }
+    } else {
+        sink.bump("wide_timestamps_unavailable", 1);
+    }
+    drop(mount);
+    let _ = std::fs::remove_dir_all(&cwd);
+}
+
 pub fn run_prop(ctx: &Ctx, sink: &mut Sink) {
+    extreme_times(ctx, sink);
     let mut rng = Rng::new(ctx.seed).fork(11);
     let cwd = ctx.scratch("c11").join("pad").join("w");
     build_world(&cwd);
